@@ -7,12 +7,12 @@ CONSTANTS
  DupLastWins = TRUE
  Defect = "none"
  Honest = {1, 2}
- Args <- ArgsTwoFr
+ Args <- ArgsTwoFrOnly
  ByzPosts <- ByzNone
  MaxByz = 0
  Faults <- FNone
  MaxFault = 0
- Tampers <- TGroups
+ Tampers <- TDesc
  MaxTamper = 1
  Plants <- PNone
  MaxPlant = 0
